@@ -55,6 +55,7 @@ type StoreDims struct {
 	Seed       int64 `json:"seed"`
 	CheckFiles bool  `json:"checkFiles"` // compare the directory listing with the model's (C07)
 	ROJunk     bool  `json:"roJunk"`     // drop junk files next to the data files before a read-only open
+	Kids       bool  `json:"kids"`       // every batch is mirrored into a child collection "kid", which must hold the same content
 }
 
 // FaultSpec says which file operation of the round in flight fails.
@@ -136,6 +137,26 @@ func (s *StoreSession) open(readOnly bool) error {
 func (s *StoreSession) openColl() error {
 	s.sched = NewSched()
 	s.sched.Open("exec.beforeLock", "merger.beforeIngest", "close.beforeWait")
+	if s.D.Kids {
+		// with child collections the collection has to come from Store.OpenCollection (it restores the
+		// child collections and their incarnation numbers from the footer); its persist options are
+		// fixed, so this dimension is only used with append-only behaviours (Kinds = {"append"})
+		so := s.storeOptions(s.ro)
+		so.CollectionOptions.MaxPreMergerBatches = 16
+		so.CollectionOptions.MergerIdleRunTimeoutMS = -1
+		so.CollectionOptions.OnError = func(e error) { s.onErr++; s.persistErrs = append(s.persistErrs, fmt.Sprint(e)) }
+		c, err := s.store.OpenCollection(so, moss.StorePersistOptions{NoSync: s.D.NoSync})
+		if err != nil {
+			return err
+		}
+		s.sched.Bind(c, s.store)
+		s.coll = c
+		s.closedColl = false
+		if s.ro {
+			return nil
+		}
+		return s.sched.AwaitParked("merger.loop", stepTimeout)
+	}
 	init, err := s.store.Snapshot()
 	if err != nil {
 		return err
@@ -303,6 +324,33 @@ func (s *StoreSession) wantContent(c []int) map[string][]byte {
 // checkSnap compares a snapshot with the content TLC expects: every key
 // by Get, one full iteration, and no deletion markers when asked.
 func (s *StoreSession) checkSnap(ss moss.Snapshot, c []int, what string) (out []Mismatch) {
+	out = s.checkSnap1(ss, c, what)
+	if !s.D.Kids {
+		return
+	}
+	// the mirror child collection: same content (it exists once something was written)
+	err := safely(func() error {
+		cs, err := ss.ChildCollectionSnapshot("kid")
+		if err != nil {
+			return err
+		}
+		if cs == nil {
+			if len(s.wantContent(c)) > 0 {
+				out = append(out, Mismatch{What: what + ".child", Got: "no child collection snapshot", Want: "child collection kid with the mirrored content"})
+			}
+			return nil
+		}
+		defer cs.Close()
+		out = append(out, s.checkSnap1(cs, c, what+".child")...)
+		return nil
+	})
+	if err != nil {
+		out = append(out, Mismatch{What: what + ".child.fault", Got: err.Error(), Want: "no fault"})
+	}
+	return
+}
+
+func (s *StoreSession) checkSnap1(ss moss.Snapshot, c []int, what string) (out []Mismatch) {
 	err := safely(func() error {
 		want := s.wantContent(c)
 		for i := 1; i <= s.D.NKeys; i++ {
